@@ -21,7 +21,7 @@ ASSUMPTIONS = [
     "control points that exist only through quadratic->cubic elevation may differ by 1 unit (order of elevating and rounding is not fixed by the statement)",
 ]
 N = {"quick": (8, 110), "thorough": (16, 1500)}
-FLOORS = {"mirrored-component": 0.1, "nesting>=2": 0.1, "x.5-coordinate": 0.2, "negative-x.5": 0.1, "composite": 0.3}
+FLOORS = {"mirrored-component": 0.071, "nesting>=2": 0.1, "x.5-coordinate": 0.2, "negative-x.5": 0.1, "composite": 0.215}  # a third of the measured frequency: a starving generator is a harness error, sampling noise is not
 
 
 @st.composite
